@@ -170,7 +170,7 @@ variable {α : Type} [Zero α]
 
 theorem extForward_inv (better : α → α → Bool) (a y : NDArray α) (dim : Option Int) (keep : Bool)
     (h : extForward better a dim keep = some y) (axes : List Nat)
-    (hax : (match dim with | none => Axes.all | some d => Axes.one d).norm a.shape.length = some axes) :
+    (hax : (match dim with | none => Axes.all | some d => Axes.one d).normRed a.shape.length = some axes) :
     (∀ k ∈ axes, a.shape.getD k 0 ≠ 0) ∧
     y = ofFn (reduceShape a.shape axes keep) (fun o => a.get (argExt better a axes keep o)) := by
   have h' : ((if ((axes.any fun k => List.getD a.shape k 0 == 0) || decide (a.shape.size = 0)) = true then none
@@ -192,7 +192,7 @@ theorem argExt_spec (R : α → α → Prop) (htot : ∀ x y, R x y ∨ R y x)
     (hb : ∀ x y, better x y = true ↔ ¬ R x y)
     (a y : NDArray α) (dim : Option Int) (keep : Bool)
     (h : extForward better a dim keep = some y) (axes : List Nat)
-    (hax : (match dim with | none => Axes.all | some d => Axes.one d).norm a.shape.length = some axes)
+    (hax : (match dim with | none => Axes.all | some d => Axes.one d).normRed a.shape.length = some axes)
     (o : Idx) (ho : validIdx y.shape o) :
     validIdx a.shape (argExt better a axes keep o) ∧ reduceIdx axes keep (argExt better a axes keep o) = o ∧
     y.get o = a.get (argExt better a axes keep o) ∧
@@ -225,7 +225,7 @@ variable {α : Type} [Zero α] [One α] [Mul α]
 
 theorem extBackward_eq (better : α → α → Bool) (g a b : NDArray α) (dim : Option Int) (keep : Bool)
     (hb : extBackward better g a dim keep = some b) (axes : List Nat)
-    (hax : (match dim with | none => Axes.all | some d => Axes.one d).norm a.shape.length = some axes) :
+    (hax : (match dim with | none => Axes.all | some d => Axes.one d).normRed a.shape.length = some axes) :
     b = ofFn a.shape (fun i =>
       if argExt better a axes keep (reduceIdx axes keep i) = i then
         (if dim.isNone then g.get (List.replicate g.shape.length 0)
@@ -243,7 +243,7 @@ theorem extBackward_eq (better : α → α → Bool) (g a b : NDArray α) (dim :
 omit [One α] [Mul α] in
 /-- however the kernel reads the upstream gradient, it reads `g[reduceIdx i]` -/
 theorem extBackward_read (g a : NDArray α) (dim : Option Int) (keep : Bool) (axes : List Nat)
-    (hax : (match dim with | none => Axes.all | some d => Axes.one d).norm a.shape.length = some axes)
+    (hax : (match dim with | none => Axes.all | some d => Axes.one d).normRed a.shape.length = some axes)
     (hgs : g.shape = reduceShape a.shape axes keep) (i : Idx) (hi : validIdx a.shape i) :
     (if dim.isNone then g.get (List.replicate g.shape.length 0)
       else (if keep then g else reshapeTo g (reduceShape a.shape axes true)).get (reduceIdx axes true i))
@@ -251,7 +251,7 @@ theorem extBackward_read (g a : NDArray α) (dim : Option Int) (keep : Bool) (ax
   have hlen := validIdx_length _ _ hi
   cases dim with
   | none =>
-    simp only [Axes.norm, Option.some.injEq] at hax
+    simp only [normRed_all, Option.some.injEq] at hax
     subst hax
     simp only [Option.isNone_none, if_true]
     cases keep with
@@ -275,7 +275,7 @@ theorem extBackward_read (g a : NDArray α) (dim : Option Int) (keep : Bool) (ax
 
 theorem extBackward_masked (better : α → α → Bool) (a g b : NDArray α) (dim : Option Int) (keep : Bool)
     (hb : extBackward better g a dim keep = some b) (axes : List Nat)
-    (hax : (match dim with | none => Axes.all | some d => Axes.one d).norm a.shape.length = some axes)
+    (hax : (match dim with | none => Axes.all | some d => Axes.one d).normRed a.shape.length = some axes)
     (hgs : g.shape = reduceShape a.shape axes keep) :
     b.shape = a.shape ∧ ∀ i, validIdx a.shape i →
       b.get i = if argExt better a axes keep (reduceIdx axes keep i) = i
@@ -287,7 +287,7 @@ theorem extBackward_masked (better : α → α → Bool) (a g b : NDArray α) (d
 
 theorem extBackward_total (better : α → α → Bool) (a g : NDArray α) (dim : Option Int) (keep : Bool)
     (axes : List Nat)
-    (hax : (match dim with | none => Axes.all | some d => Axes.one d).norm a.shape.length = some axes) :
+    (hax : (match dim with | none => Axes.all | some d => Axes.one d).normRed a.shape.length = some axes) :
     ∃ b, extBackward better g a dim keep = some b ∧ b.shape = a.shape := by
   unfold extBackward
   cases dim <;> simp only [] at hax ⊢ <;> rw [hax] <;>
@@ -298,11 +298,11 @@ end Back
 /-- acceptance of the forward exhibits the normalised axes -/
 theorem extForward_axes {α : Type} [Zero α] (better : α → α → Bool) (a y : NDArray α) (dim : Option Int)
     (keep : Bool) (h : extForward better a dim keep = some y) :
-    ∃ axes, (match dim with | none => Axes.all | some d => Axes.one d).norm a.shape.length = some axes := by
+    ∃ axes, (match dim with | none => Axes.all | some d => Axes.one d).normRed a.shape.length = some axes := by
   unfold extForward at h
   cases dim <;> simp only [] at h ⊢
-  · exact ⟨_, rfl⟩
-  · cases hn : Axes.norm a.shape.length (Axes.one ‹Int›) with
+  · exact ⟨_, normRed_all _⟩
+  · cases hn : Axes.normRed a.shape.length (Axes.one ‹Int›) with
     | none => rw [hn] at h; simp at h
     | some ax => exact ⟨ax, rfl⟩
 
